@@ -24,6 +24,7 @@ type c07Case struct {
 	SQL                string     `json:"sql"`
 	Mode               string     `json:"mode"` // counting | tumbling (event time, closed by a sentinel row)
 	N                  int        `json:"n,omitempty"`
+	Global             bool       `json:"global_window,omitempty"` // the batches of N rows per key are formed by GLOBAL WINDOW TRIGGER WHEN count(*) >= N
 	GroupCols          []string   `json:"group_cols"`
 	UnselectedGroupCol bool       `json:"unselected_group_col"`
 	borderline         bool       // a HAVING atom sits within float rounding of its literal (verdict left open)
@@ -142,6 +143,7 @@ func c07Exec(c *c07Case, rows []Row, expect int) (res c07Run) {
 func (c *c07Case) baseAttrs() map[string]string {
 	return map[string]string{
 		"mode":                 c.Mode,
+		"global_window":        fmt.Sprint(c.Global),
 		"distinct":             fmt.Sprint(c.Distinct),
 		"having":               fmt.Sprint(c.Having != nil),
 		"order_by":             fmt.Sprint(len(c.Order) > 0),
@@ -389,7 +391,7 @@ func execC07(ctx *core.Ctx, c *c07Case) {
 		// ---- output columns ----
 		for _, out := range d.Rows {
 			for _, name := range sortedKeys(out) {
-				if name == "window_id" || names[name] != nil {
+				if name == "window_id" || names[name] != nil || (c.Global && (name == "window_start" || name == "window_end")) {
 					continue
 				}
 				switch {
